@@ -19,6 +19,10 @@ Proof. apply Forall_forall. intros r H. apply in_seq in H. lia. Qed.
 Lemma rev_seq_le n : Forall (fun r => r <= n)%nat (rev (seq 1 (n - 1))).
 Proof. apply Forall_forall. intros r H. apply in_rev in H. apply in_seq in H. lia. Qed.
 
+(* unfold the top-level spec definitions first in conversions (otherwise the kernel starts evaluating
+   the state transformations on symbolic states) *)
+#[local] Strategy expand [cipher cipher_w inv_cipher inv_cipher_w].
+
 Section Key.
   Variable key : bytes.
   Hypothesis K : key_len_ok key = true.
